@@ -406,6 +406,26 @@ def _gmrf_factor_order(chk, repo):
         raise AnchorError("GMRF._sample: solves with the Cholesky factor not found")
     chk.add("C05-R3", f"{gm.qual}._sample/factor-order", not problems, site(repo, fn_src), f"{n} solve(s) use the stored factor (role {role}) in the orientation of A = L L^T",
             "; ".join(problems), fn_src)
+    # spectral samplers: drawing through a DFT diagonalisation is only meaningful for a circulant precision, i.e. a SQUARE wrap-around difference operator.
+    # For every boundary condition whose branch of _sample uses the DFT, the operator table (rows of D per boundary condition, read from
+    # _create_diff_matrix) must say N rows.
+    from .common import cases_reaching, OTHER
+    from . import c20 as _c20
+    g = CFG(fn_src)
+    spectral = [nd for nd in g.nodes if nd.ast is not None and nd.kind in ("stmt", "return") and
+                any(isinstance(c, ast.Call) and ((call_name(c) or "").split(".")[-1] in ("dft", "fft", "ifft", "fft2", "ifft2")) for c in ast.walk(nd.ast))]
+    t1 = _c20._bc_table(repo.method(repo.cls("cuqi/operator/_operator.py:FirstOrderFiniteDifference"), "_create_diff_matrix")[1])
+    bad = []
+    for nd in spectral:
+        for bc in cases_reaching(g, nd, "self._bc_type"):
+            if bc is OTHER:
+                continue
+            rows = _c20._row_offset(t1.get(bc, {}).get("rows"))
+            if rows != 0:
+                bad.append(f"bc_type='{bc}' is sampled through a DFT (`{unparse(nd.ast)[:50]}`), but its difference operator has N{rows:+d} rows: D.T@D is not circulant "
+                           f"(the wrap-around difference enters twice), so the DFT does not diagonalise the precision the log-density uses")
+    chk.add("C05-R3", f"{gm.qual}._sample/spectral-requires-circulant", not bad, site(repo, fn_src),
+            f"{len(spectral)} spectral statement(s); each only for boundary conditions with a square wrap-around operator", "; ".join(sorted(set(bad))), fn_src)
 
 
 def _r4(chk, repo, dist):
